@@ -153,7 +153,7 @@ theorem checkRts_ok (c : Ctx) (root : Bytes) :
 theorem fullFromRaw_accepted (c : Ctx) (r : BlockRaw) (b : Block) (h : fullFromRaw c r = .value (.ok b)) :
     FullAccepted c b := by
   simp only [fullFromRaw, andThen_eq_ok, liftE_eq_ok, guardV_eq_ok, mapErr_eq_ok, optField_eq_ok] at h
-  obtain ⟨bh, _, rtp, _, tp, _, rip, _, ip, _, rh, _, hd, hhd, rts, hrts, _, h1, _, h2, _, h3, uch, _, eci, _, hb⟩ := h
+  obtain ⟨bh, _, rtp, _, tp, _, rip, _, ip, _, rh, _, hd, hhd, rts, hrts, _, h1, _, h2, _, _, _, h3, uch, _, eci, _, hb⟩ := h
   injection hb with hb; injection hb with hb
   subst hb
   have hhd' : decodeHeader rh = .ok hd := by
@@ -161,6 +161,17 @@ theorem fullFromRaw_accepted (c : Ctx) (r : BlockRaw) (b : Block) (h : fullFromR
     | error e => rw [hq] at hhd; cases hhd
     | ok v => rw [hq] at hhd; simp only [Except.mapError] at hhd; injection hhd with hhd; rw [hhd]
   exact ⟨(decodeHeader_ok rh hd hhd').1, rts_idLen _ _ hrts, h1, h2, h3⟩
+
+/-- With the repair of finding FB1 (`fullChecksRts`), an accepted full block's per-rollup proofs
+    verify against its rollup transactions root. -/
+theorem fullFromRaw_rts_verified (c : Ctx) (hfix : c.fullChecksRts = true) (r : BlockRaw) (b : Block)
+    (h : fullFromRaw c r = .value (.ok b)) :
+    ∀ x ∈ b.rollups, rtMatchesRoot c x.id x.txs x.proof b.header.txsRoot = .value true := by
+  simp only [fullFromRaw, andThen_eq_ok, liftE_eq_ok, guardV_eq_ok, mapErr_eq_ok, optField_eq_ok, hfix, if_true] at h
+  obtain ⟨bh, _, rtp, _, tp, _, rip, _, ip, _, rh, _, hd, hhd, rts, hrts, _, h1, _, h2, u, hchk, _, h3, uch, _, eci, _, hb⟩ := h
+  injection hb with hb; injection hb with hb
+  subst hb
+  exact checkRts_ok c _ _ u hchk
 
 theorem filteredFromRaw_accepted (c : Ctx) (r : FilteredRaw) (f : Filtered)
     (h : filteredFromRaw c r = .value (.ok f)) : FilteredAccepted c f := by
